@@ -71,6 +71,29 @@ func installHost() *[]hostCall {
 	return log
 }
 
+// installHostQuiet: the same deterministic host functions without the shared call log (safe to call from concurrently
+// running EVM instances: the race harness must not report races of its own).
+func installHostQuiet() {
+	actypes.GetAspectContext = func(ctx context.Context, a common.Address, key string) ([]byte, error) {
+		if len(key) > 0 && key[0] == 0xEE {
+			return nil, errors.New("host get failed")
+		}
+		return append([]byte(key), a.Bytes()...), nil
+	}
+	actypes.SetAspectContext = func(ctx context.Context, a common.Address, key string, value []byte) error {
+		if len(key) > 0 && key[0] == 0xEE {
+			return errors.New("host set failed")
+		}
+		return nil
+	}
+	actypes.JITSenderAspectByContext = func(ctx context.Context, h common.Hash) (common.Address, error) {
+		if h[31] == 0xEE {
+			return common.Address{}, errors.New("host jit failed")
+		}
+		return common.BytesToAddress(h[12:]), nil
+	}
+}
+
 type abiCase struct {
 	Idx    int        `json:"idx"`
 	Class  string     `json:"class"`
